@@ -16,7 +16,7 @@ class C02(ParamsProp):
     exhaustive = {"quick": "all stacks of <=3 layers over 10 shapes at depth 1; all pairs at depth 2",
                   "thorough": "all stacks of <=4 layers over 10 shapes at depth 1, <=3 at depth 2"}
 
-    families = {"deep_ref_layers": 60, "repeated_layers": 80, "wide_mapping": 20, "many_layers": 40, "empty_const": 40, "null_const": 30, "odd_keys": 80, "dup_in_one_mapping": 100, "same_value_layers": 150}
+    families = {"deep_ref_layers": 60, "repeated_layers": 80, "wide_mapping": 20, "many_layers": 40, "empty_const": 40, "null_const": 30, "odd_keys": 80, "dup_in_one_mapping": 100, "same_value_layers": 150, "wide_layer_lookup": 80, "dangling_then_reset": 40}
 
     def base_cases(self, tier, seed):
         L1 = 3 if tier == "quick" else 4
